@@ -31,6 +31,7 @@ static const char *SWRONG[] = {"1", "true", "null", "[\"issuer\"]", "{\"v\":\"is
 struct Model {
   bool exp_on = true, nbf_on = true; long long exp_lee = 0, nbf_lee = 0;
   bool on[3] = {false, false, false}; std::string val[3];
+  bool undet[3] = {false, false, false};   // a claim_set for this claim was REFUSED (value not valid UTF-8): what is in force afterwards is not said - it may keep the old value or reject everything, never accept anything else
   long long now = 1700000000;
 };
 
@@ -127,9 +128,11 @@ static std::string run_ops(const std::vector<Op> &ops, bool count) {
   for (const Op &o : ops) {
     if (!bad.empty()) break;
     switch (o.kind % OP_N) {
-    case OP_SET: { int t = o.a % 3; const char *s = POOLSTR[o.b % NPOOL]; for (auto c : cks) if (jwt_checker_claim_set(c, TY[t], s) != 0) bad = "config-return:claim_set"; m.on[t] = true; m.val[t] = s; TRACE += std::string("set ") + TN[t] + "=" + s + "; "; break; }
-    case OP_SET_BAD: { int f = BADFLAGS[o.a % 7]; for (auto c : cks) if (jwt_checker_claim_set(c, (jwt_claims_t)f, "x") == 0) bad = "config-return:claim_set-invalid-type-accepted"; if (o.b % 3 == 0) for (auto c : cks) if (jwt_checker_claim_set(c, TY[o.b % 3], NULL) == 0) bad = "config-return:claim_set-null-accepted"; TRACE += "set-bad; "; break; }
-    case OP_DEL: { int t = o.a % 3; for (auto c : cks) if (jwt_checker_claim_del(c, TY[t]) != 0) bad = "config-return:claim_del"; m.on[t] = false; m.val[t].clear(); after_del = true; TRACE += std::string("del ") + TN[t] + "; "; break; }
+    case OP_SET: { int t = o.a % 3; const char *s = POOLSTR[o.b % NPOOL]; for (auto c : cks) if (jwt_checker_claim_set(c, TY[t], s) != 0) bad = "config-return:claim_set"; m.on[t] = true; m.val[t] = s; m.undet[t] = false; TRACE += std::string("set ") + TN[t] + "=" + s + "; "; break; }
+    case OP_SET_BAD: { if (o.b % 3 == 1) {   // an expected value that is not valid UTF-8 (Latin-1 text): refused; afterwards see Model::undet
+        int t = o.a % 3; for (auto c : cks) if (jwt_checker_claim_set(c, TY[t], "M\xfcller GmbH") == 0) bad = "config-return:claim_set-invalid-utf8-accepted"; m.undet[t] = true; TRACE += std::string("set-refused(non-utf8) ") + TN[t] + "; "; break; }
+      int f = BADFLAGS[o.a % 7]; for (auto c : cks) if (jwt_checker_claim_set(c, (jwt_claims_t)f, "x") == 0) bad = "config-return:claim_set-invalid-type-accepted"; if (o.b % 3 == 0) for (auto c : cks) if (jwt_checker_claim_set(c, TY[o.b % 3], NULL) == 0) bad = "config-return:claim_set-null-accepted"; TRACE += "set-bad; "; break; }
+    case OP_DEL: { int t = o.a % 3; for (auto c : cks) if (jwt_checker_claim_del(c, TY[t]) != 0) bad = "config-return:claim_del"; m.on[t] = false; m.val[t].clear(); m.undet[t] = false; after_del = true; TRACE += std::string("del ") + TN[t] + "; "; break; }
     case OP_DEL_BAD: { int f = BADFLAGS[o.a % 7]; for (auto c : cks) if (jwt_checker_claim_del(c, (jwt_claims_t)f) == 0) bad = "config-return:claim_del-invalid-type-accepted"; TRACE += "del-bad; "; break; }
     case OP_LEEWAY: { long long secs = o.a % 12 < 10 ? LEEWAYS[o.a % 12] : (long long)((unsigned long long)o.v % (1ULL << 40)); int w = o.b % 2;
       for (auto c : cks) if (jwt_checker_time_leeway(c, w ? JWT_CLAIM_NBF : JWT_CLAIM_EXP, (time_t)secs) != 0) bad = "config-return:time_leeway";
@@ -155,12 +158,21 @@ static std::string run_ops(const std::vector<Op> &ops, bool count) {
         }
         if (st.want_sample()) st.sample("{\"trace\":" + jstr(TRACE.substr(TRACE.size() > 600 ? TRACE.size() - 600 : 0)) + "}");
       }
+      bool any_undet = m.undet[0] || m.undet[1] || m.undet[2];
+      if (any_undet) {
+        // judge without the undetermined claims; an acceptance is then only defensible if those claims still carry their old expected values
+        Model m2 = m; for (int i = 0; i < 3; i++) if (m.undet[i]) m2.on[i] = false; std::string why2; bool want2 = model_accepts(m2, b, why2);
+        if (ret == 0 && !want2) bad = "accepts-but-policy-rejects:" + why2;
+        else if (ret == 0) for (int i = 0; i < 3; i++) if (m.undet[i] && m.on[i] && !(b.has[i] && b.is_str[i] && b.s[i] == m.val[i])) bad = std::string("accepts-but-policy-rejects:") + TN[i] + "-matches-nothing-ever-configured(after-a-refused-set)";
+        if (count) st.cls("verify-with-a-claim-left-undetermined-by-a-refused-set");
+      } else
       if ((ret == 0) != want) bad = std::string(ret == 0 ? "accepts-but-policy-rejects:" : "rejects-but-policy-accepts:") + why;
       break; }
     }
     // claim_get must mirror the model after every step
     if (bad.empty()) for (int i = 0; i < 3; i++) for (auto c : cks) {
       const char *g = jwt_checker_claim_get(c, TY[i]);
+      if (m.undet[i]) continue;
       if (m.on[i] ? (!g || m.val[i] != g) : (g != nullptr)) bad = "claim-get-differs-from-configuration";
     }
   }
